@@ -296,8 +296,17 @@ fn specs() -> Vec<Spec> {
             match parse_tls_extension(&m.to_bytes()).map_err(err)?.1 { TlsExtension::PskExchangeModes(l) => Ok(l[1] as u32), o => Err(format!("{:?}", o)) }
         } },
         Spec { name: "EC point format", bits: 8, registry: None, probe: |v, t| {
-            let m = MExt::EcPointFormats(vec![v as u8, t.u8()]);
-            match parse_tls_extension(&m.to_bytes()).map_err(err)?.1 { TlsExtension::EcPointFormats(l) => Ok(l[0] as u32), o => Err(format!("{:?}", o)) }
+            // a list of two or three formats (what OpenSSL servers send), through the generic, ClientHello and ServerHello dispatchers
+            let list = if t.bool() { vec![v as u8, t.u8()] } else { vec![t.u8(), v as u8, 2] };
+            let pos = list.iter().position(|x| *x == v as u8).unwrap_or(0);
+            let bytes = MExt::EcPointFormats(list.clone()).to_bytes();
+            for (dn, r) in [("generic", parse_tls_extension(&bytes)), ("client hello", parse_tls_client_hello_extension(&bytes)), ("server hello", parse_tls_server_hello_extension(&bytes))] {
+                match r.map_err(|e| format!("{} dispatcher: {}", dn, err(e)))?.1 {
+                    TlsExtension::EcPointFormats(l) if l == list.as_slice() => {}
+                    o => return Err(format!("{} dispatcher: {:?}", dn, o)),
+                }
+            }
+            Ok(list[pos] as u32)
         } },
         Spec { name: "CT version", bits: 8, registry: Some(&ia::CT_VERSION), probe: |v, t| {
             let mut s = gen_sct(t, 120);
